@@ -3,6 +3,7 @@ import CnlModel.Layered
 import CnlModel.ScaledFloat
 import CnlModel.Elastic
 import CnlModel.Wide
+import CnlModel.WideCmp
 import CnlSpec.Wide
 import CnlDriver.FloatIO
 /-! `C01`–`C04` tables: scaled_integer over built-in representations (operators, division,
@@ -127,11 +128,30 @@ def checkC02 (toks : List String) (res : String) : Option Verdict :=
     some { model := showRes showBool m, spec := if guard then some (res == "1") else none, branch := "ident", nontrivial := guard }
   | _ => none
 
-/-- storage width of `wide_integer<D, int>` -/
-def wideN (d : Nat) : Nat :=
-  match Wide.storage d i32 with
-  | .builtin t => t.bits
-  | .multi f => f.N
+/-- `wide_integer<DL,NL> OP wide_integer<DR,NR>` (different types): `Wide.wideCmp` transcribes
+`wide_integer/custom_operator.h` — two multi-limb representations of different widths are both converted to the
+wider one (the repair of the former class `C03.wide_mixed_width_comparison_narrows_rhs`, which is no longer
+excused: a recurrence is a violation).  Oracle: the order of the two values; for operands of different
+signedness only where the conversion to the wider type keeps both values (otherwise, as for built-in integers,
+the comparison is the one after conversion to the wider unsigned type and the property does not constrain it). -/
+def checkWcmp (ops dl nl dr nr l r res : String) : Option Verdict := do
+  let op ← parseCmpOp ops; let dl ← dl.toNat?; let nl ← parseIntTy nl; let dr ← dr.toNat?; let nr ← parseIntTy nr
+  let l ← l.toInt?; let r ← r.toInt?
+  let m := Wide.wideCmp dl nl dr nr op l r
+  let width : Wide.Storage → Nat := fun | .builtin t => t.bits | .multi f => f.N
+  let sl := Wide.storage dl nl; let sr := Wide.storage dr nr
+  let wl := width sl; let wr := width sr
+  let rhsWider := wr > wl
+  -- different signedness: the common type is the wider one (the unsigned one at equal widths, built-in only)
+  let commonSigned := if nl.signed == nr.signed then nl.signed
+    else if wl == wr then false else if rhsWider then nr.signed else nl.signed
+  let byValue := nl.signed == nr.signed || ((commonSigned && wl != wr) || (l ≥ 0 && r ≥ 0))
+  let kind := match sl, sr with
+    | .builtin _, .builtin _ => "bb" | .builtin _, .multi _ => "bm" | .multi _, .builtin _ => "mb" | .multi _, .multi _ => "mm"
+  some { model := showRes showBool m, spec := if byValue then some (res == showBool (WideSpec.specCmp op l r)) else none,
+         branch := "wcmp/" ++ ops ++ "/" ++ kind ++ (if rhsWider then "/rhs-wider" else if wl > wr then "/lhs-wider" else "/same-width")
+                   ++ (if nl.signed != nr.signed then "/mixed-sign" else ""),
+         nontrivial := true }
 
 /-- C03: comparisons agree with the order of the denoted values -/
 def checkC03 (toks : List String) (res : String) : Option Verdict :=
@@ -171,22 +191,8 @@ def checkC03 (toks : List String) (res : String) : Option Verdict :=
     let guard := decide x.InRange
     some { model := showRes showBool m, spec := if guard then some (res == showBool want) else none,
            branch := "eicmp/" ++ side ++ "/" ++ ops, nontrivial := guard }
-  | ["wcmp", ops, dl, dr, l, r] => do
-    -- wide_integer<DL,int> OP wide_integer<DR,int>: the right operand is converted to the left
-    -- operand's type before the representations are compared
-    let op ← parseCmpOp ops; let dl ← dl.toNat?; let dr ← dr.toNat?; let l ← l.toInt?; let r ← r.toInt?
-    let nl := wideN dl
-    -- a single-word left operand (built-in storage) is converted into the right operand's type
-    -- instead, which loses nothing
-    let r' := match Wide.storage dl i32 with
-      | .builtin _ => r
-      | .multi _ => WideSpec.wrapTwos nl true r
-    let cmpI (a b : Int) : Bool := match op with
-      | .lt => decide (a < b) | .le => decide (a ≤ b) | .gt => decide (a > b) | .ge => decide (a ≥ b)
-      | .eq => decide (a = b) | .ne => decide (a ≠ b)
-    let cls := if r' != r then "C03.wide_mixed_width_comparison_narrows_rhs" else ""
-    some { model := showBool (cmpI l r'), spec := some (res == showBool (cmpI l r)), cls := cls,
-           branch := "wcmp/" ++ ops ++ (if wideN dr > nl then "/rhs-wider" else ""), nontrivial := true }
+  | ["wcmp", ops, dl, dr, l, r] => checkWcmp ops dl "i32" dr "i32" l r res
+  | ["wcmpt", ops, dl, nl, dr, nr, l, r] => checkWcmp ops dl nl dr nr l r res
   | ["cmp", ops, dl, nl, dr, nr, l, r] => do
     -- elastic_integer comparison (digits and narrowest types instead of exponents)
     let op ← parseCmpOp ops; let dl ← dl.toNat?; let nl ← parseIntTy nl; let dr ← dr.toNat?; let nr ← parseIntTy nr
@@ -244,7 +250,8 @@ def checkC04 (toks : List String) (res : String) : Option Verdict :=
     let m := ScaledFloat.toFloat f rx v es
     let exact : Rat := (v : Rat) * (if es ≥ 0 then ((rx : Rat) ^ es.toNat) else 1 / ((rx : Rat) ^ (-es).toNat))
     let want := f.round exact
-    let cls := if rx != 2 then "C04.non_binary_radix_float_not_correctly_rounded" else ""
+    let cls := if rx != 2 then "C04.non_binary_radix_float_not_correctly_rounded"
+      else if fm == "f32" && decide (v.natAbs ≥ 2^128 - 2^103) && decide (es < 0) then "C04.wide_rep_cast_overflows_float" else ""
     some { model := FloatIO.showF f m, spec := some (FloatIO.showF f want == res), cls := cls,
            branch := s!"tof/{fm}/r{rx}" }
   | ["fromf", rx, dt, ed, fm, x] => do
